@@ -14,7 +14,7 @@ GENERATED_OBLIGATIONS = ["Cte/Gen/StdoutSites.lean regenerated from the sources 
 BINDIR = os.path.join(CACHE, "target-repo", "debug")
 HARNESS_ARGS = {"quick": {"bindir": BINDIR}, "thorough": {"bindir": BINDIR}}
 RULE = ("the real hulc2model and thor binaries built from /repo, run as processes on the 12 shipped project directories x {default, --use-extra}, "
-        "on copies holding exactly one of the two result files, on an empty directory, a directory without project and a missing directory; thor -o x {fresh file, existing longer file, existing shorter file} x "
+        "on synthetic projects (generated BDL inside the XML envelope of a shipped project: 6 quick, 40 thorough), on copies holding exactly one of the two result files, on an empty directory, a directory without project and a missing directory; thor -o x {fresh file, existing longer file, existing shorter file} x "
         "{-, -v, -vv}; non-trivial = the library converts the directory; distinct = distinct (directory, flags, binary)")
 ASSUMPTIONS = ["'the same model JSON' for thor is read as: equal to the library conversion of the file, and equal to hulc2model's model up to the "
                "`extra`/`overrides` fields only hulc2model adds",
